@@ -62,7 +62,7 @@ def run(chk):
     full = chk.tier == 'thorough' or bool(b.drift) or not b.proof_ok
     jobs = [(chk.seed, i, 'singles') for i in range(12 if full else 3)]
     jobs += [(chk.seed, i, 'pairs') for i in range(32 if full else 8)]
-    jobs += [(chk.seed, 1000 + i, 'big') for i in range(300 if full else 40)]
+    jobs += [(chk.seed, 1000 + i, 'big') for i in range(core.budget(chk, full, 50, 300))]
     chk.rule = ('documents x include/exclude: every single category as include and as exclude (37+37 per document), every '
                 'ordered (include, exclude) pair of single categories (37x37, spread over 8 documents each round), random larger '
                 'sets on full-size documents, plus the explicit identity selections; extended encoding; non-trivial = distinct '
